@@ -95,6 +95,12 @@ var cancelShapes = []shapeDef{
 	{name: "mutex_lock", known: true, body: "mx := Std::Sync::Mutex()\nmx.lock\nmx.lock\n"},
 	{name: "sleep_long", body: "sleep 1000.hours\n"},
 	{name: "sleep_in_loop", body: "loop\n  sleep 30.seconds\n  x = x + 1\nend\n"},
+	// catch-all handlers inside the endless loop swallow the abort error of the operation they
+	// guard: the check on the back edge of the loop (outside the handler) has to end the program
+	{name: "loop_catch_all_sleep", body: "loop\n  do\n    sleep 30.seconds\n  catch _\n    x = x + 1\n  end\nend\n"},
+	{name: "loop_catch_all_pop", body: "ch := Channel::[Int](0)\nloop\n  do\n    x = try ch.pop\n  catch _\n    x = x + 1\n  end\nend\n"},
+	{name: "loop_catch_all_spin", defs: "def spin_some(a: Int): Int\n  var i = 0\n  while i < 1000\n    i = i + 1\n  end\n  a + 1\nend\n", body: "loop\n  do\n    x = spin_some(x)\n  catch _\n    x = 0\n  end\nend\n"},
+	{name: "nested_catch_all", body: "loop\n  do\n    loop\n      do\n        sleep 10.seconds\n      catch _\n        x = x + 1\n      end\n      break if x > 1000000\n    end\n  catch _\n    x = 0\n  end\nend\n"},
 }
 
 type c33Engine struct{}
